@@ -10,7 +10,10 @@ Level: partial (DESIGN §4-C15, §8). The theorems are about footprints: the Go 
 -/
 import KinModel.Conc
 import KinModel.ConcCase
+import KinModel.ConcSlice
 import KinModel.Gen.SharedWrites
+import KinModel.Gen.SharedGlobals
+import KinModel.Gen.ConstructionWrites
 import KinModel.Lemmas.C15
 namespace KinModel.Conc
 
@@ -29,33 +32,60 @@ theorem race_free (k : Cfg) (σ : State) (tr : Trace) (hc : CleanTrace k tr) (hl
   · exact n2 h
 
 /-- Schedule independence: in ANY interleaving with any other threads, and whatever the caches held at the
-    start (`τ` differs from `σ` at most on cache cells), thread `i` observes exactly what it observes when
-    it runs alone — hence returns the same verdict. -/
+    start (`τ` differs from `σ` at most on cache cells; a cache whose content is USED holds nothing or the value
+    its key determines, `Coherent`), thread `i` observes exactly what it observes when it runs alone — hence
+    returns the same verdict. This covers caches that ARE filled and read back (`fillUse`: the type-info cache):
+    whoever publishes first, every thread goes on with the value the key determines. -/
 theorem schedule_independent (k : Cfg) (i : Nat) : ∀ (tr : Trace) (σ τ : State),
-    CleanTrace k tr → LazyInit k σ → AgreeOff k σ τ → readsOf i σ tr = solo τ (proj i tr)
-  | [], _, _, _, _, _ => rfl
-  | (j, a) :: tr, σ, τ, hc, hl, hag => by
+    CleanTrace k tr → LazyInit k σ → AgreeOff k σ τ → Coherent k σ → Coherent k τ →
+    readsOf i σ tr = solo τ (proj i tr)
+  | [], _, _, _, _, _, _, _ => rfl
+  | (j, a) :: tr, σ, τ, hc, hl, hag, hcs, hct => by
     have hca : cleanAct k a = true := hc (j, a) (by simp)
     have hc' : CleanTrace k tr := fun x hx => hc x (by simp [hx])
     have hl' := lazy_step k σ a hca hl
+    have hcs' := coherent_step k σ a hca hcs
     by_cases hj : j = i
-    · obtain ⟨hag', hobs⟩ := agree_step k σ τ a hag hca
+    · obtain ⟨hag', hobs⟩ := agree_step k σ τ a hag hca hcs hct
       simp only [readsOf, proj, hj, if_true, solo]
-      rw [hobs, schedule_independent k i tr (stepState σ a) (stepState τ a) hc' hl' hag']
+      rw [hobs, schedule_independent k i tr (stepState σ a) (stepState τ a) hc' hl' hag' hcs'
+            (coherent_step k τ a hca hct)]
     · simp only [readsOf, proj, hj, if_false]
-      exact schedule_independent k i tr (stepState σ a) τ hc' hl' (agree_other k σ τ a hag hca hl)
+      exact schedule_independent k i tr (stepState σ a) τ hc' hl' (agree_other k σ τ a hag hca hl) hcs' hct
 
 /-- Any two complete interleavings of the same threads give every thread the same observations. -/
 theorem any_two_schedules_agree (k : Cfg) (ts : Nat → List Act) (σ : State) (tr1 tr2 : Trace)
     (h1 : IsSchedule ts tr1) (h2 : IsSchedule ts tr2) (c1 : CleanTrace k tr1) (c2 : CleanTrace k tr2)
-    (hl : LazyInit k σ) (i : Nat) : readsOf i σ tr1 = readsOf i σ tr2 := by
-  rw [schedule_independent k i tr1 σ σ c1 hl (agree_refl k σ),
-      schedule_independent k i tr2 σ σ c2 hl (agree_refl k σ), h1 i, h2 i]
+    (hl : LazyInit k σ) (hco : Coherent k σ) (i : Nat) : readsOf i σ tr1 = readsOf i σ tr2 := by
+  rw [schedule_independent k i tr1 σ σ c1 hl (agree_refl k σ) hco hco,
+      schedule_independent k i tr2 σ σ c2 hl (agree_refl k σ) hco hco, h1 i, h2 i]
 
 /-- Warm or cold caches make no difference to what a thread observes. -/
 theorem cache_contents_irrelevant (k : Cfg) (i : Nat) (tr : Trace) (σ τ : State) (hc : CleanTrace k tr)
-    (hl : LazyInit k σ) (hl' : LazyInit k τ) (hag : AgreeOff k σ τ) : readsOf i σ tr = readsOf i τ tr := by
-  rw [schedule_independent k i tr σ τ hc hl hag, schedule_independent k i tr τ τ hc hl' (agree_refl k τ)]
+    (hl : LazyInit k σ) (hl' : LazyInit k τ) (hag : AgreeOff k σ τ) (hcs : Coherent k σ) (hct : Coherent k τ) :
+    readsOf i σ tr = readsOf i τ tr := by
+  rw [schedule_independent k i tr σ τ hc hl hag hcs hct,
+      schedule_independent k i tr τ τ hc hl' (agree_refl k τ) hct hct]
+
+/-- A configuration without read-back caches needs no coherence: the earlier form of the theorem. -/
+theorem schedule_independent_no_used_cache (k : Cfg) (hk : k.det = []) (i : Nat) (tr : Trace) (σ τ : State)
+    (hc : CleanTrace k tr) (hl : LazyInit k σ) (hag : AgreeOff k σ τ) : readsOf i σ tr = solo τ (proj i tr) :=
+  schedule_independent k i tr σ τ hc hl hag (fun c d h => by simp [hk] at h) (fun c d h => by simp [hk] at h)
+
+/-- A read-back cache filled with values that do NOT depend on the key alone is not transparent: thread 0 publishes
+    1000, thread 1 would have published 1001 and now goes on with 1000 (F-C15-2 was this, with descriptors). -/
+theorem used_cache_needs_key_determined_values :
+    readsOf 1 (fun _ => 0) [(0, .fillUse 11 1000), (1, .fillUse 11 1001)] ≠ solo (fun _ => 0) [.fillUse 11 1001] := by
+  decide
+
+/-- Schedule independence WITHOUT the hypothesis that lazily initialised cells are initialised: when every racer
+    installs the value the cell's key determines and the cell is only accessed through the nil-guarded
+    initialisation (`k'` lists it as a read-back cache), every thread still observes what it observes alone — the
+    uninitialised cell is a data race (`uninitialised_lazy_cell_races`) but changes no verdict. -/
+theorem schedule_independent_uninitialised (k' : Cfg) (i : Nat) (tr : Trace) (σ τ : State)
+    (hc : CleanTrace k' (mapTrace tr)) (hlz : k'.lazy = []) (hag : AgreeOff k' σ τ)
+    (hcs : Coherent k' σ) (hct : Coherent k' τ) : readsOf i σ tr = solo τ (proj i tr) := by
+  rw [← readsOf_map i tr σ, schedule_independent k' i (mapTrace tr) σ τ hc (fun c h => by simp [hlz] at h) hag hcs hct, proj_map, solo_map]
 
 /-- Validation does not write into the document: after any clean trace every non-cache cell holds what it
     held before. -/
@@ -84,6 +114,116 @@ theorem plain_write_schedule_dependent :
     readsOf 1 sigma0 [(0, .write 0 9), (1, .read 0)] ≠ readsOf 1 sigma0 [(1, .read 0), (0, .write 0 9)] := by
   decide
 
+/-! ## A′. slices of the shared document: `append` aliases through spare capacity -/
+
+/-- Appending to a shared slice that is FULL (cap = len: a clipped slice `s[:n:n]`, or a decoded list of 1, 2, 4, 8 …
+    elements) only reads shared memory: the elements are copied into an array nobody else holds. -/
+theorem append_full_only_reads (arr : Nat → Cell) (h : Hdr) (vs : List Val) (hf : h.cap ≤ h.len) (hne : vs ≠ []) :
+    ∀ a ∈ appendActs arr h vs, isRead a = true := by
+  intro a ha
+  have hlen : 0 < vs.length := List.length_pos_iff.mpr hne
+  simp only [appendActs, hne, if_false] at ha
+  rw [if_neg (by omega)] at ha
+  obtain ⟨d, rfl, _, _⟩ := mem_readsFrom arr _ _ a ha
+  rfl
+
+/-- With room for the new elements, the first of them is STORED, unsynchronised, at index `len` of the shared
+    backing array. -/
+theorem append_spare_writes_shared (arr : Nat → Cell) (h : Hdr) (v : Val) (vs : List Val)
+    (hs : h.len + (v :: vs).length ≤ h.cap) : Act.write (arr h.len) v ∈ appendActs arr h (v :: vs) := by
+  have hs' : h.len + (vs.length + 1) ≤ h.cap := by simpa using hs
+  simp [appendActs, hs', writesFrom]
+
+/-- `append` on a shared slice is a clean footprint exactly when there is nothing to append or no room for it. -/
+theorem append_clean_iff (k : Cfg) (arr : Nat → Cell) (h : Hdr) (vs : List Val) (hnc : ∀ j, arr j ∉ k.cache) :
+    (∀ a ∈ appendActs arr h vs, cleanAct k a = true) ↔ (vs = [] ∨ h.cap < h.len + vs.length) := by
+  constructor
+  · intro hall
+    cases vs with
+    | nil => exact Or.inl rfl
+    | cons v vs =>
+      refine Or.inr (Nat.lt_of_not_le fun hs => ?_)
+      have := hall _ (append_spare_writes_shared arr h v vs hs)
+      simp [cleanAct] at this
+  · rintro (rfl | hlt) a ha
+    · simp [appendActs] at ha
+    · by_cases hne : vs = []
+      · subst hne; simp [appendActs] at ha
+      · simp only [appendActs, hne, if_false] at ha
+        rw [if_neg (by omega)] at ha
+        obtain ⟨d, rfl, _, _⟩ := mem_readsFrom arr _ _ a ha
+        simpa [cleanAct] using hnc d
+
+/-- Two calls that append to the same shared slice with spare capacity race — from every state, whatever they append. -/
+theorem append_spare_races (arr : Nat → Cell) (h : Hdr) (v1 v2 : Val) (σ : State) (hs : h.len < h.cap) :
+    RaceIn (events σ ((appendActs arr h [v1]).map (fun a => (0, a)) ++ (appendActs arr h [v2]).map (fun a => (1, a)))) := by
+  have h1 : h.len + 1 ≤ h.cap := hs
+  rw [← raceInB_iff]
+  simp [appendActs, h1, writesFrom, events, stepAcc, raceInB, conflict]
+
+/-- … and the element a call reads back through its appended slice is the OTHER call's when that one stored in
+    between: the call is judged against parameters that are not its own. -/
+theorem append_spare_schedule_dependent (arr : Nat → Cell) (h : Hdr) (v1 v2 : Val) (σ : State) (hv : v1 ≠ v2) :
+    readsOf 0 σ [(0, .write (arr h.len) v1), (1, .write (arr h.len) v2), (0, .read (arr h.len))]
+      ≠ solo σ [.write (arr h.len) v1, .read (arr h.len)] := by
+  simp [readsOf, solo, stepObs, stepState, consObs, Ne.symm hv]
+
+/-- The decoder's growth rule leaves room exactly after 3, 5-7, 9-15 elements (all lists up to 16 elements). -/
+theorem decoded_spare_capacity_small :
+    (List.range 17).filter spareCap = [3, 5, 6, 7, 9, 10, 11, 12, 13, 14, 15] := by decide
+
+/-- … so it has spare capacity exactly when n is not a power of two -/
+theorem decoded_spare_iff_not_power_of_two (n : Nat) (hn : 0 < n) : spareCap n = true ↔ ∀ k, n ≠ 2 ^ k := by
+  obtain ⟨k, hk, h1, h2⟩ := decodedCap_pow2 n hn
+  simp only [spareCap, decide_eq_true_eq, hk]
+  constructor
+  · intro hlt j hj
+    -- n = 2^j, n < 2^k < 2n = 2^(j+1): no power of two strictly between
+    subst hj
+    have a : j < k := (Nat.pow_lt_pow_iff_right (by decide)).mp hlt
+    have b : k < j + 1 := by
+      have : 2 ^ k < 2 ^ (j + 1) := by rw [Nat.pow_succ]; omega
+      exact (Nat.pow_lt_pow_iff_right (by decide)).mp this
+    omega
+  · intro hne
+    exact Nat.lt_of_le_of_ne h1 (hne k)
+
+/-- A decoded slice is never shorter than its content (all n). -/
+theorem decoded_cap_ge (n : Nat) : n ≤ decodedCap n := decodedCap_ge n
+
+/-- ValidateRequest with its two parameter loops merged into one loop over
+    `append(pathItemParameters, operationParameters...)` (footprint: the append on the path item's decoded slice,
+    then a range over the result): clean exactly when the operation has no parameters of its own or they do not
+    fit into the spare capacity of the path item's list — e.g. 3 path-level parameters and 1 own parameter do fit. -/
+theorem merged_parameter_loops_clean_iff (k : Cfg) (i n : Nat) (own : List Val) (hnc : ∀ j, sliceCell i j ∉ k.cache) :
+    (∀ a ∈ appendActs (sliceCell i) (itemHdr n) own ++ rangeActs (sliceCell i) n, cleanAct k a = true)
+      ↔ (own = [] ∨ decodedCap n < n + own.length) := by
+  have key := append_clean_iff k (sliceCell i) (itemHdr n) own hnc
+  simp only [itemHdr] at key
+  rw [← key]
+  constructor
+  · intro hall a ha; exact hall a (List.mem_append_left _ ha)
+  · intro hall a ha
+    rcases List.mem_append.mp ha with ha | ha
+    · exact hall a ha
+    · obtain ⟨d, rfl, _, _⟩ := mem_readsFrom (sliceCell i) _ _ a ha
+      simpa [cleanAct] using hnc d
+
+/-- the merged loop on a path item with THREE path-level parameters (decoded cap 4), two operations with one own
+    parameter each (7 and 8), validated concurrently: a data race, and the first call reads the second's parameter -/
+theorem merged_parameter_loops_three :
+    outcomeOf 2 ((appendActs (sliceCell 0) (itemHdr 3) [7]).map (fun a => (0, a)) ++
+                 (appendActs (sliceCell 0) (itemHdr 3) [8]).map (fun a => (1, a)) ++
+                 (rangeActs (sliceCell 0) 4).map (fun a => (0, a)) ++ (rangeActs (sliceCell 0) 4).map (fun a => (1, a)))
+      = ⟨true, true, false⟩ := by decide
+
+/-- … with FOUR path-level parameters (decoded cap 4) the same code is harmless: why no test noticed. -/
+theorem merged_parameter_loops_four :
+    outcomeOf 2 ((appendActs (sliceCell 0) (itemHdr 4) [7]).map (fun a => (0, a)) ++
+                 (appendActs (sliceCell 0) (itemHdr 4) [8]).map (fun a => (1, a)) ++
+                 (rangeActs (sliceCell 0) 4).map (fun a => (0, a)) ++ (rangeActs (sliceCell 0) 4).map (fun a => (1, a)))
+      = specOutcome := by decide
+
 /-! ## B. the regenerated footprint table -/
 
 /-- The translator could read every write it met. -/
@@ -93,6 +233,12 @@ theorem table_recognised : ∀ w ∈ Gen.sharedWrites, rowClass w ≠ .unread :=
     is synchronised (sync.Map / mutex / once), or a nil-guarded re-initialisation of a cell that its
     declaration / the constructor initialises, or caller-owned per-call output. -/
 theorem footprint_clean : ∀ w ∈ Gen.sharedWrites, rowOK w = true := by decide
+
+/-- No reachable function appends to (or edits in place: slices.Insert/Delete/Compact…) a slice of the shared
+    document, router or a package-level variable, unless the slice is clipped to its length (`s[:n:n]`,
+    slices.Clip) or the append is synchronised: `append` stores into the shared backing array whenever the slice
+    has spare capacity (theorems of part A′). -/
+theorem no_append_into_shared_slices : ∀ w ∈ Gen.sharedWrites, rowClass w ≠ .appendSpare := by decide
 
 /-- The footprint denoted by the table is clean for the configuration denoted by the table. -/
 theorem table_acts_clean :
@@ -124,21 +270,88 @@ theorem table_race_free (σ : State) (tr : Trace) (hl : LazyInit (tableCfg Gen.s
   · exact table_acts_clean x.2 hm
   · rw [hc]; simpa [cleanAct] using hn
 
-/-- Schedule independence for the code's own footprint. -/
+/-- Schedule independence for the code's own footprint (read-back caches — the type-info cache — hold nothing or
+    the value their key determines). -/
 theorem table_schedule_independent (σ : State) (tr : Trace) (i : Nat)
-    (hl : LazyInit (tableCfg Gen.sharedWrites) σ)
+    (hl : LazyInit (tableCfg Gen.sharedWrites) σ) (hco : Coherent (tableCfg Gen.sharedWrites) σ)
     (h : ∀ x ∈ tr, x.2 ∈ tableActs Gen.sharedWrites ∨
                    ∃ c, x.2 = .read c ∧ c ∉ (tableCfg Gen.sharedWrites).cache) :
     readsOf i σ tr = solo σ (proj i tr) := by
-  apply schedule_independent (tableCfg Gen.sharedWrites) i tr σ σ _ hl (agree_refl _ σ)
+  apply schedule_independent (tableCfg Gen.sharedWrites) i tr σ σ _ hl (agree_refl _ σ) hco hco
   intro x hx
   rcases h x hx with hm | ⟨c, hc, hn⟩
   · exact table_acts_clean x.2 hm
   · rw [hc]; simpa [cleanAct] using hn
 
+/-- Every mutex-guarded store reachable from the concurrent entry points is a load-or-publish (first writer wins):
+    an unconditional `cache[k] = v` under the lock — the shape `getTypeInfo` had before commit 9118e72 — is not a data
+    race but makes what a caller gets back depend on the schedule (`regression_type_info`). -/
+theorem mutex_stores_are_first_wins : ∀ w ∈ Gen.sharedWrites, rowClass w ≠ .lastWriterWins := by decide
+
+/-- …and the table does contain such a load-or-publish whose result is used (non-vacuity of the `fillUse` part). -/
+theorem table_has_first_wins_cache : (tableCfg Gen.sharedWrites).det ≠ [] := by decide
+
 /-- non-vacuity: the table does denote synchronised fills and a lazily re-initialised cell -/
 example : (tableCfg Gen.sharedWrites).cache ≠ [] ∧ (tableCfg Gen.sharedWrites).lazy ≠ [] ∧
     (tableActs Gen.sharedWrites).length ≥ 3 := by decide
+
+/-! ## B′. package-level variables READ by the concurrent code (table `Gen.sharedGlobals`, regenerated)
+
+`Gen.sharedWrites` lists what the concurrent entry points write; a plain read is safe only if nobody else writes.
+The table lists every package-level variable that reachable code accesses and that ANY function of the library
+writes after initialisation (`init` excluded), with all accesses and the mutex held at each. -/
+
+/-- Every such variable is a synchronisation object itself, or all its accesses (reads included, in every function
+    of the library) are under one and the same mutex, or it is never written (only its address is handed out), or the
+    reachable code only reads it and every writer is a registration function (`registrationAPIs`: the calls the
+    property does not quantify over). A new unsynchronised writer, a read that forgets the lock, a registry changed
+    from a validation path: each breaks this. -/
+theorem globals_consistent :
+    ∀ r ∈ Gen.sharedGlobals, globalClass (lazyGlobals Gen.sharedWrites) r ≠ .bad := by decide
+
+/-- What each mutex of the library protects (read off the code: the variables accessed while it is held) is
+    accessed under that mutex everywhere: the invariant of `typeInfosMutex` is "typeInfos is only touched under me",
+    of `bodyEncodersM` "bodyEncoders is only touched under me". -/
+theorem mutex_invariants :
+    ∀ o ∈ Gen.syncObjects, ∀ v ∈ o.protects, ∀ r ∈ Gen.sharedGlobals, r.name = v →
+      globalClass (lazyGlobals Gen.sharedWrites) r = .mutexGuarded := by decide
+
+/-- the classes that occur (non-vacuity: all four mechanisms are in use) -/
+example : (Gen.sharedGlobals.map (globalClass (lazyGlobals Gen.sharedWrites))).eraseDups.length = 4 := by decide
+
+/-- a registry written by a function that is not a registration API is rejected (witness for `globals_consistent`) -/
+example : globalClass [] ⟨"openapi3filter", "bodyDecoders", "map", false,
+    [⟨"openapi3filter.decodeBody", .read, "", true⟩, ⟨"openapi3filter.ValidateRequest", .write, "", true⟩]⟩ = .bad := by decide
+
+/-- … and so is a mutex-guarded map with one access that forgot the lock -/
+example : globalClass [] ⟨"openapi3gen", "typeInfos", "map", false,
+    [⟨"openapi3gen.getTypeInfo", .read, "", true⟩, ⟨"openapi3gen.getTypeInfo", .write, "typeInfosMutex", true⟩]⟩ = .bad := by decide
+
+/-! ## B″. the boundary of the property: calls that PREPARE the document (table `Gen.ConstructionWrites`, regenerated)
+
+The property is about FindRoute / ValidateRequest / ValidateResponse / VisitJSON / schema generation on a loaded,
+validated document. What the preparation calls write into the document, by the same translator rule: -/
+
+/-- `(*T).Validate` writes into the document only through `Paths.Set`, i.e. only to replace a missing (nil) path
+    item (openapi3/paths.go `if pathItem == nil`): re-validating an already validated document writes nothing, so
+    it may overlap the concurrent calls (as `legacy.NewRouter` does when a second router is built). -/
+theorem validate_writes_only_missing_path_items :
+    ∀ w ∈ Gen.validateWrites, rowFn w = "openapi3.(*Paths).Set" := by decide
+
+/-- `gorillamux.NewRouter` writes nothing into the document. -/
+theorem gorillamux_construction_leaves_document_alone : Gen.gorillaCtorWrites = [] := by decide
+
+/-- `legacy.NewRouter` validates the document (same nil path-item fill) and otherwise writes its own, new tree. -/
+theorem legacy_construction_writes :
+    ∀ w ∈ Gen.legacyCtorWrites, rowFn w ∈ ["openapi3.(*Paths).Set", "routers/legacy/pathpattern.(*Node).Add",
+      "routers/legacy/pathpattern.(*Node).CreateNode"] := by decide
+
+/-- `(*T).InternalizeRefs` is NOT read-only (it keeps its visited-sets in the document, `doc.visited`, and rewrites
+    references and components): it is a preparation step and outside the property's concurrent calls — a call of it
+    that overlaps a validation is a data race by `plain_write_races`. -/
+theorem internalize_refs_is_not_read_only :
+    Gen.internalizeWrites.any (fun w => rowFn w == "openapi3.(*T).isVisitedSchema") = true ∧
+    Gen.internalizeWrites.any (fun w => rowFn w == "openapi3.(*T).resetVisited") = true := by decide
 
 /-! ## C. the executable case model used by the correspondence run
 
@@ -158,18 +371,31 @@ theorem outcome_clean (c : CaseM) : outcome c = specOutcome := by
   have hd : (List.range c.g).any (fun i => readsOf i sigma0 (caseTrace c) != solo sigma0 (proj i (caseTrace c))) = false := by
     rw [List.any_eq_false]
     intro i _
-    simp [schedule_independent (caseCfg c) i (caseTrace c) sigma0 sigma0 hc hl (agree_refl _ _)]
+    simp [schedule_independent (caseCfg c) i (caseTrace c) sigma0 sigma0 hc hl (agree_refl _ _)
+            (sigma0_coherent c) (sigma0_coherent c)]
   have hdoc : docCells.any (fun d => finalState sigma0 (caseTrace c) d != sigma0 d) = false := by
     rw [List.any_eq_false]
     intro d hdm
     have hlt : (d : Nat) < 10 := by
-      simp only [docCells, docCell, routerCell, uniqCell, dfltCell, List.mem_cons, List.not_mem_nil, or_false] at hdm
-      rcases hdm with rfl | rfl | rfl | rfl <;> decide
+      simp only [docCells, docCell, routerCell, uniqCell, dfltCell, regCell, List.mem_cons, List.not_mem_nil, or_false] at hdm
+      rcases hdm with rfl | rfl | rfl | rfl | rfl <;> decide
     have hn : d ∉ (caseCfg c).cache := fun hm => by
       have h1 : 10 ≤ (d : Nat) := (cache_cell_ge c d hm).1
       exact absurd h1 (Nat.not_le.mpr hlt)
     simp [document_untouched (caseCfg c) sigma0 (caseTrace c) hc hl d hn]
   simp [outcome, outcomeOf, specOutcome, hr, hd, hdoc]
+
+/-- The seeded change C15-m2 for EVERY case: from a state in which the uniqueness checker is nil, no thread of any
+    case, under any interleaving, observes anything it does not observe alone … -/
+theorem uninitialised_checker_changes_no_verdict (c : CaseM) (i : Nat) :
+    readsOf i sigmaU (caseTrace c) = solo sigmaU (proj i (caseTrace c)) :=
+  schedule_independent_uninitialised (caseCfgU c) i (caseTrace c) sigmaU sigmaU (caseTrace_cleanU c)
+    rfl (agree_refl _ _) (sigmaU_coherent c) (sigmaU_coherent c)
+
+/-- … although two first array validations race (only the detector sees the defect). -/
+theorem uninitialised_checker_races :
+    RaceIn (events sigmaU (caseTrace { ops := [{ kind := .visit, arrays := true }], g := 2, per := 1, sched := 0 })) := by
+  rw [← raceInB_iff]; decide
 
 /-! Regression theorems: the footprints the two repaired defects had (kept as traces of the machine; the
     corpus replays their inputs on the library on every run). -/
@@ -217,7 +443,7 @@ example : outcome { ops := [{ kind := .vreq, patterns := [0], dialect := 1 }, { 
                             { kind := .vresp, patterns := [0, 1], dialect := 1 }], g := 6, per := 2, sched := 3 }
     = specOutcome := by decide
 
-/-- the repaired `getTypeInfo` on the same schedule: first published descriptor wins, modelled as a fill -/
+/-- the repaired `getTypeInfo` on the same schedule: first published descriptor wins and is used (`fillUse`) -/
 example : outcome { ops := [{ kind := .gen, genType := 3, recursive := true }], g := 2, per := 1, sched := 9 }
     = specOutcome := by decide
 
